@@ -57,13 +57,17 @@ where
       else if c < 'A' || c > 'Z' then false
       else go rest false
 
-/-- `Reference.ObjValue()`: a missing target is a Go nil interface (method call on it panics) -/
+/-- `Reference.ObjValue()`: a deleted target reads as nil (never a Go nil interface) -/
 def refValue (env : Nat) (name : String) : M Obj := do
   let f ← getFrame env
   match lookupStore f.store name with
   | some (.ref e n) => if e == env && n == name then stop (.goPanic "Self reference") else pure (.ref e n)
   | some v => pure v
-  | none => stop (.goPanic "nil object behind reference")
+  | none => pure .null
+
+def refAlive (env : Nat) (name : String) : M Bool := do
+  let f ← getFrame env
+  pure (lookupStore f.store name).isSome
 
 /-- `object.Value`: dereference (at most 100 hops) -/
 def valueOf (o : Obj) : M Obj :=
@@ -118,14 +122,19 @@ def envGet (e : Nat) (name : String) : M (Option Obj) := do
   | some fn => if fn.name == some name then return some (.func fn)
   | none => pure ()
   match lookupStore f.store name with
-  | some obj =>
-    match obj with
-    | .ref re rn =>
+  | some (.ref re rn) =>
+    if !(← refAlive re rn) then
+      -- the referenced variable was deleted: forget the stale reference and look again
+      modifyFrame e fun f => { f with store := delStore f.store name }
+      match f.outer with
+      | none => pure none
+      | some _ => makeRef e name
+    else
       let tgt ← refValue re rn
       if !isConstant rn && !isFuncObj tgt then
         modifyFrame e fun f => { f with getMiss := f.getMiss + 1 }
-      pure (some obj)
-    | _ => pure (some obj)
+      pure (some (.ref re rn))
+  | some obj => pure (some obj)
   | none =>
     match f.outer with
     | none => pure none
